@@ -360,8 +360,17 @@ def _constant_templates(repo: Repo, rep: Report) -> None:
                 defined = set()
             shipped_config_defs = defined
     emit = repo.func("emitters.core_emitter:CoreEmitter.emit")
+    # the two `__init__.py` line lists (found by what they are - a list literal of constant lines with relative imports and `__all__` - in
+    # emit or a helper of the emitter it was moved to; the auth one is the one importing `.base`)
+    init_lists = []
+    for f_ in emit.module.functions.values():
+        for n in own_nodes(f_.node):
+            if isinstance(n, (ast.Assign, ast.AnnAssign)) and isinstance(getattr(n, "value", None), ast.List) and n.value.elts and all(const_str(e) is not None for e in n.value.elts[:3]) \
+                    and any((const_str(e) or "").startswith("from .") for e in n.value.elts) and any("__all__" in (const_str(e) or "") for e in n.value.elts):
+                init_lists.append((f_, n))
     for var, label, base in (("core_init_content", "core __init__", ""), ("auth_init_content", "auth __init__", "auth.")):
-        lists = [n for n in own_nodes(emit.node) if isinstance(n, ast.Assign) and isinstance(n.targets[0], ast.Name) and n.targets[0].id == var and isinstance(n.value, ast.List)]
+        is_auth = label.startswith("auth")
+        lists = [n for f_, n in init_lists if any((const_str(e) or "").startswith("from .base import") for e in n.value.elts) == is_auth]
         rep.require(len(lists) == 1, f"R1.4: {var} list literal not found in CoreEmitter.emit")
         for ls in lists:
             lines = [const_str(e) for e in ls.value.elts]
@@ -528,6 +537,11 @@ def _indent_balance(fn: Function, rep: Report) -> None:
 
 def _models_emitter_rules(repo: Repo, rep: Report) -> None:
     emit = repo.func("emitters.models_emitter:ModelsEmitter.emit")
+    if not any(isinstance(n, ast.Assign) and norm(n.targets[0]).endswith((".generation_name", ".final_module_stem")) for n in own_nodes(emit.node)):
+        from sa.flatten import flatten as _fl18
+
+        emit = _fl18(emit, select=lambda h: any(isinstance(n, ast.Assign) and norm(n.targets[0]).endswith((".generation_name", ".final_module_stem"))
+                                                 for n in own_nodes(h.node)))  # the naming pass was moved into a helper of the emitter: written out
     cfg = CFG(emit.node)
     dom = cfg.dominators()
     naming = [n for n in cfg.nodes if n.kind == "stmt" and isinstance(n.ast, ast.Assign) and norm(n.ast.targets[0]).endswith((".generation_name", ".final_module_stem"))]
